@@ -2,7 +2,7 @@
 //@ contract
 __CPROVER_requires(VTMF_INV(self) && IOS_IN_OK(in) && __tmcg_thrown == 0)
 __CPROVER_requires(in->pos + 3 <= in->ntok ==> WORD_OK(in->tok[in->pos + 2]))
-__CPROVER_assigns(in->pos, in->fail, __tmcg_thrown, V(self->h), MAP.present, MAP.val, MAP.size)
+__CPROVER_assigns(IOS_IN_ASSIGNS(in), __tmcg_thrown, V(self->h), MAP.present, MAP.val, MAP.size)
 __CPROVER_ensures(__tmcg_thrown == 0 || __tmcg_thrown == TMCG_EXC_runtime_error)
 /* C08: a contribution is accepted exactly when key, c, r arrive and the proof of knowledge verifies ... */
 __CPROVER_ensures(__CPROVER_return_value ==
@@ -21,7 +21,7 @@ __CPROVER_ensures(__CPROVER_return_value && ghost_mkey != KEYID(TOK(in, 0)) ==>
 //@ contract
 __CPROVER_requires(VTMF_INV(self) && IOS_IN_OK(in) && __tmcg_thrown == 0)
 __CPROVER_requires(MAP.present ==> __CPROVER_is_fresh(MAP.val, sizeof(__mpz_struct)))
-__CPROVER_assigns(in->pos, in->fail, __tmcg_thrown, V(self->h), MAP.present, MAP.size)
+__CPROVER_assigns(IOS_IN_ASSIGNS(in), __tmcg_thrown, V(self->h), MAP.present, MAP.size)
 __CPROVER_frees(MAP.val)
 __CPROVER_ensures(__tmcg_thrown == 0 || __tmcg_thrown == TMCG_EXC_runtime_error)
 /* C08: removal succeeds only for a stored key and multiplies by the inverse of the STORED key
